@@ -27,6 +27,10 @@ pub trait Elem: MatrixElement + PartialEq + Debug + Send + 'static {
     }
     /// values whose bytes are all identical (0, all-ones, 0x0101..): candidates for a memset path
     fn byte_uniform(i: usize) -> Self;
+    /// two values that compare equal although their bytes differ, if the type has such a pair
+    fn equal_with_other_bytes() -> Option<(Self, Self)> {
+        None
+    }
 }
 impl Elem for u8 {
     fn byte_uniform(i: usize) -> Self {
@@ -56,6 +60,9 @@ impl Elem for f32 {
     }
     fn unequal_to_itself() -> Option<Self> {
         Some(f32::NAN)
+    }
+    fn equal_with_other_bytes() -> Option<(Self, Self)> {
+        Some((0.0, -0.0))
     }
     fn from_u(x: u64) -> Self {
         ((x % 100_003) as f32) * 0.25 + 0.5
@@ -629,6 +636,19 @@ pub fn history<T: Elem, C: ArrayLength + PartialEq>(case: u64, rng: &mut Rng, re
                 let d = n == m;
                 if a || b || d {
                     out.push(format!("with a cell that is not equal to itself: n == n is {}, n == n.clone() is {}, n == original is {} (all three must be false)", a, b, d));
+                }
+            }
+            if let (Some((p, q)), true) = (T::equal_with_other_bytes(), !model.is_empty()) {
+                let mut n = m.clone();
+                let mut n2 = m.clone();
+                n[model.len() / 2][c - 1] = p;
+                n2[model.len() / 2][c - 1] = q;
+                let mut filled = m.clone();
+                filled.fill(q);
+                let mut filled2 = m.clone();
+                filled2.fill(p);
+                if n != n2 || !(n2 == n) || filled != filled2 {
+                    out.push(format!("two matrices that differ only by {:?} / {:?} cells (equal values, other bytes) compare unequal", p, q));
                 }
             }
             out
